@@ -334,7 +334,7 @@ pub fn generate(rng: &Rng, world: &World, tier: &str) -> C17 {
                 2 | 3 | 4 if !formulas.is_empty() => {
                     let bad = [
                         "AX", "(AX a", "a &", "!{x}: AX {y}", "!{x}: !{x}: AX {x}", "AX no_such_variable_", "3{x}: @{y}: a", "a b", "{x}", "AX (a & )", "%%", "!{x} in : AX {x}",
-                        "\\unknown {x}: a", "a => => b", "EX EX", "~", "@{x}: a", "V{x}:",
+                        "\\unknown {x}: a", "a => => b", "EX EX", "~", "@{x}: a", "V{x}:", "true # a comment must start its line", "(true | false) #",
                     ];
                     Fault::InvalidFormula { index: r.below(formulas.len()), text: r.pick(&bad).to_string() }
                 }
